@@ -212,7 +212,7 @@ fn rand_imat(rng: &mut Rng) -> [i64; 9] {
     m
 }
 fn rand_name(rng: &mut Rng, n: usize) -> i64 {
-    match rng.below(12) { 0 => 26, 1 => 50, 2 => 101 + rng.below(5) as i64, _ => rng.below((n + 2) as u64) as i64 }
+    match rng.below(14) { 0 => 26, 1 => 50, 2 => 101 + rng.below(5) as i64, 3 => 128 + rng.below(13) as i64 /* 56..80 bytes */, _ => rng.below((n + 2) as u64) as i64 }
 }
 
 pub fn gen(o: &Opts, sink: &mut dyn FnMut(Vec<i64>, String)) {
